@@ -658,6 +658,12 @@ def expectation(loaded: dict, disk: Disk, mode: str | None) -> dict:
     # (the lower bound also needs the execution to happen, and succeed, under the upper-bound change set: whether an
     # unguarded import succeeds can depend on an optional discard)
     must_exec = [c for c in must_exec_all if c not in must_failed and c in may_exec and c not in may_failed]
+    # the optional choices are independent of one another: under the upper-bound change set WITHOUT the optional
+    # execution of a package's __init__.py on a dotted submodule import the execution has to happen as well
+    # (found with VERIF_SEED=11: a named reload whose only path to a module led through a discarded package in
+    # one bound and through an optional __init__ execution in the other)
+    _, mid_exec, mid_failed = simulate_exec(loaded, found, disk, may_changed, upper=False)
+    must_exec = [c for c in must_exec if c in mid_exec and c not in mid_failed]
     may_exec = sorted(set(may_exec) | set(must_exec_all))
     return {
         "failed": must_failed | may_failed, "failed_def": must_failed & may_failed,
